@@ -1167,3 +1167,69 @@ Lemma w_decision_differs :
   fst (mode_loop_st (leaky_step w_load w_conv) 0 w_lib 75 w_path) = NoFeasibleMode (32, 0) (mkM 1 32 0 100 (75 # 2) 400 (mkT [] [] [])) /\
   mode_loop 0 (fresh_provider w_path w_load w_conv) w_lib 75 = Selected (32, 0) (mkM 1 32 0 100 (75 # 2) 400 (mkT [] [] [])).
 Proof. split; vm_compute; reflexivity. Qed.
+
+(* ====================================================================================================
+   6. amplifier state in dB
+   ==================================================================================================== *)
+Lemma clamp_db_le : forall g pmax pin, clamp_db g pmax pin <= g.
+Proof. intros g pmax [p|]; cbn; [apply Q.le_min_l | apply Qle_refl]. Qed.
+Lemma clamp_db_mono : forall g g' pmax pin, g <= g' -> clamp_db g pmax pin <= clamp_db g' pmax pin.
+Proof.
+  intros g g' pmax [p|] H; cbn; [|exact H]. apply Q.min_le_compat_r. exact H.
+Qed.
+Lemma clamp_db_pmax : forall g pmax p, clamp_db g pmax (Some p) + p <= pmax.
+Proof. intros g pmax p. cbn. pose proof (Q.le_min_r g (pmax - p)). lra. Qed.
+
+(* the loop of the code: whatever the number of iterations, the gain after the k-th propagation is the clamp of the
+   DESIGNED gain by that propagation's own input power *)
+Lemma atrace_loop : forall pmax g0 pins cur,
+  atrace pmax (mkAst cur g0) (flat_map (fun p => [ARestore; AProp p]) pins) = map (clamp_db g0 pmax) pins.
+Proof.
+  intros pmax g0. induction pins as [|p t IH]; intros cur; [reflexivity|].
+  cbn [flat_map app atrace astep a_cur a_snap map]. f_equal. apply IH.
+Qed.
+Lemma loop_history : forall g0 pmax pins,
+  amp_history g0 pmax (loop_events pins) = map (clamp_db g0 pmax) pins.
+Proof. intros. unfold amp_history, loop_events. cbn [atrace astep a_cur]. apply atrace_loop. Qed.
+
+(* propagations on shared objects without restore: each gain is the clamp of the PREVIOUS gain *)
+Fixpoint running (pmax g : Q) (pins : list (option Q)) : list Q :=
+  match pins with [] => [] | p :: t => clamp_db g pmax p :: running pmax (clamp_db g pmax p) t end.
+Lemma atrace_shared : forall pmax pins cur sn,
+  atrace pmax (mkAst cur sn) (map AProp pins) = running pmax cur pins.
+Proof.
+  intros pmax. induction pins as [|p t IH]; intros cur sn; [reflexivity|].
+  cbn [map atrace astep a_cur a_snap running]. f_equal. apply IH.
+Qed.
+Lemma shared_history : forall g0 pmax pins,
+  amp_history g0 pmax (shared_events pins) = running pmax g0 pins.
+Proof. intros. apply atrace_shared. Qed.
+(* ... so the gains never go back up, and each is at most what a fresh propagation would give *)
+Lemma running_le_start : forall pmax pins g, Forall (fun x => x <= g) (running pmax g pins).
+Proof.
+  intros pmax. induction pins as [|p t IH]; intros g; cbn; constructor.
+  - apply clamp_db_le.
+  - eapply Forall_impl; [|apply IH]. cbn. intros x H. eapply Qle_trans; [exact H | apply clamp_db_le].
+Qed.
+Lemma running_decreasing : forall pmax pins g, StronglySorted (fun a b => b <= a) (running pmax g pins).
+Proof.
+  intros pmax. induction pins as [|p t IH]; intros g; cbn; constructor; [apply IH | apply running_le_start].
+Qed.
+Lemma fresh_weaken : forall pmax g g' (t : list (option Q)) l, g' <= g ->
+  Forall2 (fun x f => x <= f) l (map (clamp_db g' pmax) t) -> Forall2 (fun x f => x <= f) l (map (clamp_db g pmax) t).
+Proof.
+  intros pmax g g'. induction t as [|q t' IHt]; intros l Hg H; inversion H; subst; constructor.
+  - eapply Qle_trans; [eassumption | apply clamp_db_mono; exact Hg].
+  - now apply IHt.
+Qed.
+Lemma running_le_fresh : forall pmax pins g, Forall2 (fun x f => x <= f) (running pmax g pins) (map (clamp_db g pmax) pins).
+Proof.
+  intros pmax. induction pins as [|p t IH]; intros g; cbn; constructor; [apply Qle_refl|].
+  eapply fresh_weaken; [apply clamp_db_le | apply IH].
+Qed.
+(* witness: 23 dB designed, p_max 21 dBm; a +3 dBm load clamps to 18 dB, a following -5 dBm load keeps 18 dB on shared
+   objects but sees 23 dB after a restore *)
+Lemma shared_differs_from_loop :
+  amp_history 23 21 (shared_events [Some 3; Some (-5)]) = [18; 18] /\
+  amp_history 23 21 (loop_events [Some 3; Some (-5)]) = [18; 23].
+Proof. split; vm_compute; reflexivity. Qed.
